@@ -1,12 +1,12 @@
 package main
 
 import (
-	"os"
-	"runtime/debug"
 	"fmt"
 	"go/constant"
 	"go/token"
 	"go/types"
+	"os"
+	"runtime/debug"
 	"sort"
 	"strings"
 
@@ -17,15 +17,15 @@ import (
 // values, addresses, state
 
 type Val struct {
-	Sort  string
-	Term  string
-	Ptr   *Addr
-	Tuple []Val
-	Clo   *Closure
-	Fn    *ssa.Function
-	GoT   types.Type
+	Sort    string
+	Term    string
+	Ptr     *Addr
+	Tuple   []Val
+	Clo     *Closure
+	Fn      *ssa.Function
+	GoT     types.Type
 	NilFlag string // for static pointers that may be nil: SMT Bool "is nil" ("" = never nil)
-	Elems []Val // statically known elements (slices over local arrays: variadic arguments, composite literals)
+	Elems   []Val  // statically known elements (slices over local arrays: variadic arguments, composite literals)
 	CoinsOf string // a []Coin obtained by converting this Coins value (coins... arguments)
 }
 
@@ -43,18 +43,18 @@ type Cell struct {
 
 // Addr is a static description of a memory location.
 type Addr struct {
-	Cell  *Cell  // a local/param/global cell, or
-	Heap  string // element of an array heap: Heap[Loc][Idx], or
-	Loc   string
-	Idx   string
-	Base  bool   // address of the whole array Heap[Loc] (pointer to array)
-	N     int64  // array length for Base
-	PHeap string // element of a pointer heap: PHeap[PLoc]
-	PLoc  string
+	Cell      *Cell  // a local/param/global cell, or
+	Heap      string // element of an array heap: Heap[Loc][Idx], or
+	Loc       string
+	Idx       string
+	Base      bool   // address of the whole array Heap[Loc] (pointer to array)
+	N         int64  // array length for Base
+	PHeap     string // element of a pointer heap: PHeap[PLoc]
+	PLoc      string
 	SliceSort string // for slice elements: the slice value and the index as written (reads use sget_<sort>)
 	SliceTerm string
 	RawIdx    string
-	Path  []pathStep
+	Path      []pathStep
 }
 
 type pathStep struct {
@@ -82,24 +82,24 @@ func (s *State) clone() *State {
 // obligations
 
 type Obligation struct {
-	Name    string
-	Kind    string // ensures | requires(call) | invariant | nopanic | overflow | lemma | cover | canary
-	Label   string
-	Props   []string
-	Func    string
-	Guard   string
-	Goal    string
-	GoalSrc string
-	Pos     string
-	Bounded int
+	Name     string
+	Kind     string // ensures | requires(call) | invariant | nopanic | overflow | lemma | cover | canary
+	Label    string
+	Props    []string
+	Func     string
+	Guard    string
+	Goal     string
+	GoalSrc  string
+	Pos      string
+	Bounded  int
 	Concrete bool
 	// filled by the solver
-	Verdict string // unsat | sat | unknown | error
-	Solver  string
-	Time    float64
-	Model   string
-	Output  string
-	File    string
+	Verdict   string // unsat | sat | unknown | error
+	Solver    string
+	Time      float64
+	Model     string
+	Output    string
+	File      string
 	ExpectSat bool // cover / canary: expected to be satisfiable
 	BufLen    int  // number of body lines emitted before this obligation (later assumptions are not used)
 	Ground    bool // quantified assumptions are dropped from the query (fewer assumptions: still sound)
@@ -109,39 +109,39 @@ type Obligation struct {
 // generator
 
 type Gen struct {
-	w        *Workspace
-	sorts    *Sorts
-	top      *ssa.Function
-	contract *Contract
-	buf      []string
-	obls     []*Obligation
-	ctr      int
-	declared map[string]bool
-	trusted  map[string]bool
-	unmod    map[string]bool
-	assumes  map[string]bool
-	inlined  map[string]bool
-	cellCtr  int
-	globals  map[*ssa.Global]*Cell
+	w          *Workspace
+	sorts      *Sorts
+	top        *ssa.Function
+	contract   *Contract
+	buf        []string
+	obls       []*Obligation
+	ctr        int
+	declared   map[string]bool
+	trusted    map[string]bool
+	unmod      map[string]bool
+	assumes    map[string]bool
+	inlined    map[string]bool
+	cellCtr    int
+	globals    map[*ssa.Global]*Cell
 	cellGlobal map[*Cell]*ssa.Global
-	freshMaps map[string]bool // map locations made by the function and not written since (syntactic)
-	preTheory []string // declarations that theory modules may refer to (emitted before the theory text)
-	renames  map[string]string // recorded local name -> current local name (source-order alignment, rename.go)
-	escaped  map[*Cell][2]string // locals moved to the pointer heap: heap name, location
-	entry    *State
-	concrete bool
-	uses     map[string]bool
-	stack    []*ssa.Function
-	canaryN  int
-	notes    []string
-	ufDecl   map[string]string
-	replay   *ReplayInfo
-	arrElems map[string]map[string]Val // local array location -> constant index -> stored value
-	worldSeen map[string]bool
-	topFrame *Frame
-	resultMode bool // values being introduced are results of a callee (may be freshly allocated)
-	allocBound string // when non-empty: slices/maps of the values being introduced were allocated at or before this counter value
-	hashState map[string]*Cell // sha256 objects (by their interface term) -> cell holding the bytes written so far
+	freshMaps  map[string]bool     // map locations made by the function and not written since (syntactic)
+	preTheory  []string            // declarations that theory modules may refer to (emitted before the theory text)
+	renames    map[string]string   // recorded local name -> current local name (source-order alignment, rename.go)
+	escaped    map[*Cell][2]string // locals moved to the pointer heap: heap name, location
+	entry      *State
+	concrete   bool
+	uses       map[string]bool
+	stack      []*ssa.Function
+	canaryN    int
+	notes      []string
+	ufDecl     map[string]string
+	replay     *ReplayInfo
+	arrElems   map[string]map[string]Val // local array location -> constant index -> stored value
+	worldSeen  map[string]bool
+	topFrame   *Frame
+	resultMode bool             // values being introduced are results of a callee (may be freshly allocated)
+	allocBound string           // when non-empty: slices/maps of the values being introduced were allocated at or before this counter value
+	hashState  map[string]*Cell // sha256 objects (by their interface term) -> cell holding the bytes written so far
 }
 
 type engineError struct{ msg string }
@@ -679,25 +679,25 @@ func (g *Gen) store(st *State, a *Addr, v Val) {
 // frames
 
 type Frame struct {
-	g       *Gen
-	fn      *ssa.Function
-	prefix  string
-	vals    map[ssa.Value]Val
-	reach   map[*ssa.BasicBlock]string
-	exit    map[*ssa.BasicBlock]*State
-	edge    map[[2]int]string
-	depth   int
-	rets    []retInfo
-	spec    *Contract // loop invariants
-	loopOrd map[*ssa.BasicBlock]int
-	loopBlk map[*ssa.BasicBlock]map[*ssa.BasicBlock]bool
-	isTop   bool
-	iterOrd int
-	rangeIt map[ssa.Value]*rangeState
-	iterCells map[ssa.Value]*Cell
-	loopInfos map[*ssa.BasicBlock]*loopInfo
-	loopAlias map[*ssa.BasicBlock]map[string]string
-	loopEntry map[*ssa.BasicBlock]*State
+	g            *Gen
+	fn           *ssa.Function
+	prefix       string
+	vals         map[ssa.Value]Val
+	reach        map[*ssa.BasicBlock]string
+	exit         map[*ssa.BasicBlock]*State
+	edge         map[[2]int]string
+	depth        int
+	rets         []retInfo
+	spec         *Contract // loop invariants
+	loopOrd      map[*ssa.BasicBlock]int
+	loopBlk      map[*ssa.BasicBlock]map[*ssa.BasicBlock]bool
+	isTop        bool
+	iterOrd      int
+	rangeIt      map[ssa.Value]*rangeState
+	iterCells    map[ssa.Value]*Cell
+	loopInfos    map[*ssa.BasicBlock]*loopInfo
+	loopAlias    map[*ssa.BasicBlock]map[string]string
+	loopEntry    map[*ssa.BasicBlock]*State
 	pendingCells []pendingCell // cells created while defining phis: installed into the block's entry state
 }
 
@@ -715,7 +715,7 @@ type retInfo struct {
 }
 
 type rangeState struct {
-	mapVal  Val
+	mapVal   Val
 	snapshot string // MapVal term at range creation
 }
 
